@@ -71,6 +71,7 @@ class Sched(object):
         self.unmodelled = None
         self.anomalies = []
         self.nspawn = 0
+        self.unknown_ops = []      # operations the C04 model has no step for (try-lock found busy, locked() probe)
         self.at_yield = None       # callback run at every scheduling point (abstraction checks)
 
     # --- registration
@@ -192,6 +193,20 @@ class ILock(object):
         self.owner = None
 
     def acquire(self, blocking=True, timeout=-1):
+        if not blocking or (timeout is not None and timeout >= 0):
+            # try-lock / timed acquire: a scheduling point BEFORE the attempt; the outcome is fixed when the
+            # thread is scheduled.  got = an acquire (16); busy = an operation the model does not know (19):
+            # the trace replay breaks there (tie broken) and the line-level escalation is started.
+            # (A timed acquire is given up at once when the lock is held: under the baton scheduler no time
+            # passes, and a holder that never releases would otherwise hide the give-up path.)
+            self.s.yield_("try")
+            if self.owner is None:
+                self.owner = self.s.me()
+                self.s.note(16)
+                return True
+            self.s.note(19, 1 if blocking else 0)
+            self.s.unknown_ops.append("try:busy")
+            return False
         self.s.yield_("acq", pred=lambda: self.owner is None)
         self.owner = self.s.me()
         self.s.note(16)
@@ -211,6 +226,12 @@ class ILock(object):
             self.s.yield_("released")
 
     def locked(self):
+        # a probe of the lock is a check-then-act step of its own: scheduling point, outcome recorded (20),
+        # unknown to the model.  Unmanaged callers (other harnesses reading the attribute) just get the answer.
+        if self.s.me() is not None:
+            self.s.yield_("locked?")
+            self.s.note(20, 1 if self.owner is not None else 0)
+            self.s.unknown_ops.append("locked?")
         return self.owner is not None
 
     def __enter__(self):
@@ -222,6 +243,66 @@ class ILock(object):
 
 
 PST = {"init": 0, "handshake": 1, "transport": 2, "error": 3}
+
+LINE_ROOTS = ("_flush_incoming_buffer", "receive", "_on_protocol_state_changed", "on_handshake_finished")
+
+
+def noise_layer_codes(roots=LINE_ROOTS):
+    """Code objects that get line-level scheduling points in an escalated run: the named methods of
+    YowNoiseLayer and every function defined in yowsup/layers/noise/layer.py (methods of the class, private
+    helpers, module-level functions) they can reach by name (transitive closure over co_names)."""
+    import yowsup.layers.noise.layer as L
+    fn = L.__file__
+    funcs = {}
+    for owner in (vars(L), vars(L.YowNoiseLayer)):
+        for n, f in owner.items():
+            f = getattr(f, "__func__", f)
+            f = getattr(f, "__wrapped__", f)
+            c = getattr(f, "__code__", None)
+            if c is not None and c.co_filename == fn:
+                funcs[n] = c
+    todo, seen = list(roots), []
+    while todo:
+        n = todo.pop()
+        if n in seen or n not in funcs:
+            continue
+        seen.append(n)
+        todo.extend(x for x in funcs[n].co_names if x in funcs and x not in seen)
+        todo.extend(x.co_name for x in funcs[n].co_consts if hasattr(x, "co_name"))
+    return [funcs[n] for n in seen]
+
+
+class LineYields(object):
+    """Line-level preemption inside the noise layer's flush / receive / state-change code: sys.monitoring
+    LINE events of those code objects only; each is a scheduling point of the baton scheduler (no model step,
+    nothing recorded in the operation trace).  Makes check-then-act windows schedulable that no queue / lock
+    operation separates (e.g. between the last qsize() test of a flusher and what it does next)."""
+    TOOL = 3
+
+    def __init__(self, sched):
+        self.sched = sched
+        self.codes = []
+
+    def __enter__(self):
+        mon = sys.monitoring
+        self.codes = noise_layer_codes()
+        mon.use_tool_id(self.TOOL, "c04-line")
+        sched = self.sched
+
+        def cb(code, line):
+            if sched.me() is not None and not sched.abort:
+                sched.yield_("line")
+        mon.register_callback(self.TOOL, mon.events.LINE, cb)
+        for c in self.codes:
+            mon.set_local_events(self.TOOL, c, mon.events.LINE)
+        return self
+
+    def __exit__(self, *a):
+        mon = sys.monitoring
+        for c in self.codes:
+            mon.set_local_events(self.TOOL, c, 0)
+        mon.register_callback(self.TOOL, mon.events.LINE, None)
+        mon.free_tool_id(self.TOOL)
 
 
 def expected_presented_for(phone, passive, pushname=None, mcc=None, mnc=None, fdid=None):
@@ -480,7 +561,12 @@ def run_scheduled(scratch, name, scn, choose, rng):
         # transport (frames the server sends after the handshake completed, as opposed to frames pushed right
         # behind the server hello)
         g = scn.get("gate_from")
-        return g is not None and i >= g and rig.noise._wa_noiseprotocol.state != "transport"
+        if g is not None and i >= g and rig.noise._wa_noiseprotocol.state != "transport":
+            return True
+        # idle_from: script items from this index on arrive only when every handshake worker has ended (a frame
+        # the server sends much later; used to tell a frame that is lost from one that is merely late)
+        q = scn.get("idle_from")
+        return q is not None and i >= q and workers_alive()
 
     def nt_body():
         buf = bytearray()
@@ -564,7 +650,10 @@ def run_scheduled(scratch, name, scn, choose, rng):
         return orig_start(th)
 
     threading.Thread.start = patched_start
+    lines = LineYields(sched) if scn.get("line_level") else None
     try:
+        if lines is not None:
+            lines.__enter__()
         orig_start(nt)
         sched.loop()
     finally:
@@ -573,9 +662,12 @@ def run_scheduled(scratch, name, scn, choose, rng):
         inq_left = [rig.sid(x) for x in rig.noise._incoming_segments_queue.d]
         lock_owner = rig.noise._flush_lock.owner
         sched.shutdown()
+        if lines is not None:
+            lines.__exit__(None, None, None)
     obs = {
         "log": sched.log, "status": status, "trace": [c for _, c in sched.trace],
         "ready_sets": [list(r) for r, _ in sched.trace], "decisions": sched.decisions,
+        "unknown_ops": list(sched.unknown_ops),
         "unmodelled": sched.unmodelled, "anomalies": sched.anomalies,
         "top": rig.top.got, "state": PST.get(rig.noise._wa_noiseprotocol.state, 9),
         "inq_left": inq_left, "lock_owner": lock_owner,
